@@ -128,10 +128,10 @@ package annotations
 //@   ensures (result != nil) == (reMatches(constructorRegex, commentText) && listAny(ctorList(commentText)))
 //@   ensures result != nil ==> result.OnType == typeName && result.OnTypePos == pos && (forall x string :: contains(result.ConstructorNames, x) <==> listHas(ctorList(commentText), false, x))
 //@   assigns nothing
-//@   loop 1 invariant forall x string :: contains(names, x) ==> (exists k int :: 0 <= k && k < $i && strings.TrimSpace(parts[k]) != "" && x == strings.TrimSpace(parts[k]))
-//@   loop 1 invariant forall k int :: 0 <= k && k < $i && strings.TrimSpace(parts[k]) != "" ==> contains(names, strings.TrimSpace(parts[k]))
-//@   loop 1 invariant len(names) == 0 ==> (forall k int :: 0 <= k && k < $i ==> strings.TrimSpace(parts[k]) == "")
-//@   loop 1 invariant forall j int :: 0 <= j && j < len(names) ==> (exists k int :: 0 <= k && k < $i && strings.TrimSpace(parts[k]) != "" && names[j] == strings.TrimSpace(parts[k]))
+//@   loop 1 invariant forall x string :: contains(names, x) ==> (exists k int :: 0 <= k && k < $i && strings.TrimSpace($seq[k]) != "" && x == strings.TrimSpace($seq[k]))
+//@   loop 1 invariant forall k int :: 0 <= k && k < $i && strings.TrimSpace($seq[k]) != "" ==> contains(names, strings.TrimSpace($seq[k]))
+//@   loop 1 invariant len(names) == 0 ==> (forall k int :: 0 <= k && k < $i ==> strings.TrimSpace($seq[k]) == "")
+//@   loop 1 invariant forall j int :: 0 <= j && j < len(names) ==> (exists k int :: 0 <= k && k < $i && strings.TrimSpace($seq[k]) != "" && names[j] == strings.TrimSpace($seq[k]))
 
 //@ func parsePackageOnlyAnnotation
 //@   props C15 C09 C10 C04
@@ -140,8 +140,8 @@ package annotations
 //@   ensures result != nil ==> result.Kind == kind && result.ObjectName == objectName && result.Pos == pos && result.ReceiverType == receiverType
 //@   ensures result != nil ==> (forall x string :: contains(result.AllowedPackages, x) <==> (x == currentPkgPath || listHas(poList(commentText), false, x)))
 //@   assigns nothing
-//@   loop 1 invariant forall x string :: contains(allowedPackages, x) ==> x == currentPkgPath || (exists k int :: 0 <= k && k < $i && strings.TrimSpace(parts[k]) != "" && x == strings.TrimSpace(parts[k]))
-//@   loop 1 invariant contains(allowedPackages, currentPkgPath) && (forall k int :: 0 <= k && k < $i && strings.TrimSpace(parts[k]) != "" ==> contains(allowedPackages, strings.TrimSpace(parts[k])))
+//@   loop 1 invariant forall x string :: contains(allowedPackages, x) ==> x == currentPkgPath || (exists k int :: 0 <= k && k < $i && strings.TrimSpace($seq[k]) != "" && x == strings.TrimSpace($seq[k]))
+//@   loop 1 invariant contains(allowedPackages, currentPkgPath) && (forall k int :: 0 <= k && k < $i && strings.TrimSpace($seq[k]) != "" ==> contains(allowedPackages, strings.TrimSpace($seq[k])))
 
 //@ func getFuncKindAndReceiver
 //@   props C15 C03 C04 C10
@@ -286,7 +286,7 @@ package annotations
 //@   assigns nothing
 //@   ensures forall pth string, n string :: (exists q int :: 0 <= q && q < len(result) && result[q].PackageName == pth && result[q].InterfaceName == n) <==> (exists k int :: 0 <= k && k < len(p.ImplementsAnnotations) && !p.ImplementsAnnotations[k].PackageNotFound && p.ImplementsAnnotations[k].PackageFullPath == pth && p.ImplementsAnnotations[k].InterfaceName == n)
 //@   loop 1 frame
-//@   loop 1 invariant forall pth string, n string :: (exists q int :: 0 <= q && q < len(result) && result[q].PackageName == pth && result[q].InterfaceName == n) <==> (exists k int :: 0 <= k && k < $i && !input[k].PackageNotFound && input[k].PackageFullPath == pth && input[k].InterfaceName == n)
+//@   loop 1 invariant forall pth string, n string :: (exists q int :: 0 <= q && q < len(result) && result[q].PackageName == pth && result[q].InterfaceName == n) <==> (exists k int :: 0 <= k && k < $i && !$seq[k].PackageNotFound && $seq[k].PackageFullPath == pth && $seq[k].InterfaceName == n)
 //@ func PackageAnnotations.ToTypeQuery
 //@   props C10 C05
 //@   assigns nothing
